@@ -376,3 +376,5 @@ META = {
                     "A7 await transparent", "kwargs keys are strings"],
     "trusted_base": ["z3 5.1 / cvc5", "pyvc symbolic executor", "dict.pop / list.append / tuple slicing dependency specs"],
 }
+
+from contracts import c06_emit as _e; TASKS = list(TASKS) + _e.TASKS
